@@ -445,7 +445,13 @@ class CHECK(Check):
             out.append(('dmlgen', c))
         # INSERT ... SELECT over the SELECT model: <= 1 non-default feature (thorough 2) + join x where
         for a in qgen.assignments(FEATURES, 2 if self.tier == 'thorough' else 1, full_products=[('join', 'where'), ('order', 'limit')]):
-            if build(a) is not None:
+            qa = build(a)
+            if qa is not None:
+                if qa['limit'] is not None:
+                    # which rows a LIMIT keeps is the engine's choice (even under ORDER BY with ties): the inserted rows are not
+                    # determined by the statement, so the resulting table cannot be compared exactly (the SELECT cases judge
+                    # LIMIT with the set of legal answers)
+                    continue
                 key = tuple(a[n] for n in FEATURES)
                 if dmlgen_sql('insert_select', key, 0)[0] is not None:
                     out.append(('dmlgen', ('insert_select', key, 0)))
